@@ -1,13 +1,182 @@
 (** C17 -- target config loads are monotonic and announced as exact diffs.
     This file holds only the property theorems, each closed by [exact] of a
-    lemma proved elsewhere, with [Print Assumptions] beneath. *)
-From Gnmi Require Import Base.Prelude TargetCfg.TargetCfgModel TargetCfg.TargetCfgProofs.
+    lemma proved elsewhere, with [Print Assumptions] beneath.
 
-Theorem C17_rejected_unchanged :
-  forall (R O X : Type) (R_eqb : R -> R -> bool) (O_eqb : O -> O -> bool) (R_empty : R) (O_empty : O)
-         (p : bool) (s : state R O X) (arg : option (config R O X)),
-    snd (fst (load_gen R_eqb O_eqb R_empty O_empty p s arg)) <> None ->
-    fst (fst (load_gen R_eqb O_eqb R_empty O_empty p s arg)) = s
-    /\ snd (load_gen R_eqb O_eqb R_empty O_empty p s arg) = [].
-Proof. exact @load_rejected_unchanged. Qed.
-Print Assumptions C17_rejected_unchanged.
+    Reading guide.  [R], [O], [X] are the contents of a SubscribeRequest, of a
+    Target besides addresses/request name, of a Configuration besides
+    revision/requests/targets; [R_eqb], [O_eqb] stand for proto.Equal and are
+    assumed to decide equality of content.  [p] is the patch flag of
+    TargetCfgModel.patched_C17_1 ([false] = target.go as it is now): every
+    theorem holds for both values unless it says otherwise.  [effective s] maps
+    each target name to (target settings, content of the request it names);
+    [replay] applies Add/Update/Delete calls strictly (Add of a held name,
+    Update/Delete of an absent one is an error). *)
+From Gnmi Require Import Base.Prelude TargetCfg.TargetCfgModel TargetCfg.TargetCfgProofs
+  TargetCfg.TargetCfgCheck TargetCfg.TargetCfgKSound.
+Open Scope Z_scope.
+
+(** a load is applied iff its argument is a valid configuration and (there is
+    no current one or its revision is strictly greater); then the new state is
+    the stored argument; otherwise state unchanged, no handler call *)
+Theorem C17_load_gate :
+  forall (R O X : Type) (R_eqb : R -> R -> bool) (O_eqb : O -> O -> bool)
+         (R_empty : R) (O_empty : O) (p : bool) (s : state R O X) (arg : option (config R O X)),
+    (load_err R_eqb O_eqb R_empty O_empty p s arg = None <->
+     (exists cf : config R O X, arg = Some cf /\ valid_p p cf /\ TargetCfgProofs.newer s cf))
+    /\ (forall cf : config R O X,
+          arg = Some cf -> valid_p p cf -> TargetCfgProofs.newer s cf ->
+          load_state R_eqb O_eqb R_empty O_empty p s arg = Some (store_gen R_empty O_empty p cf))
+    /\ (load_err R_eqb O_eqb R_empty O_empty p s arg <> None ->
+        load_state R_eqb O_eqb R_empty O_empty p s arg = s
+        /\ load_calls R_eqb O_eqb R_empty O_empty p s arg = []).
+Proof. exact @load_gate. Qed.
+Print Assumptions C17_load_gate.
+
+(** Validate's verdict is the order-independent predicate [valid_p] *)
+Theorem C17_validate_spec :
+  forall (R O X : Type) (p : bool) (c : config R O X), validate_gen p c = None <-> valid_p p c.
+Proof. exact @validate_spec. Qed.
+Print Assumptions C17_validate_spec.
+
+(** for EVERY history (loads that are nil / invalid / stale / good, and -- for
+    the patched code -- in-place edits by the caller), starting from any valid
+    base or none, replaying the handler calls, those of each load in ANY order,
+    onto the effective base never errs and yields exactly the effective
+    current configuration *)
+Theorem C17_replay_converges :
+  forall (R O X : Type) (R_eqb : R -> R -> bool) (O_eqb : O -> O -> bool) (R_empty : R) (O_empty : O),
+    (forall a b : R, R_eqb a b = true <-> a = b) ->
+    (forall a b : O, O_eqb a b = true <-> a = b) ->
+    forall (p : bool) (s0 : state R O X) (hs : list (hop R O X)),
+      state_ok s0 ->
+      Forall hop_wf hs ->
+      p = true \/ forallb is_load hs = true ->
+      forall css' : list (list (call R O)),
+        Forall2 (@Permutation (call R O)) (snd (run_gen R_eqb O_eqb R_empty O_empty p s0 hs)) css' ->
+        exists e : eff R O,
+          replay (List.concat css') (effective s0) = Some e
+          /\ Permutation e (effective (fst (run_gen R_eqb O_eqb R_empty O_empty p s0 hs))).
+Proof. exact @replay_converges. Qed.
+Print Assumptions C17_replay_converges.
+
+(** ... and that result does not depend on the order inside a load *)
+Theorem C17_replay_order_independent :
+  forall (R O X : Type) (R_eqb : R -> R -> bool) (O_eqb : O -> O -> bool) (R_empty : R) (O_empty : O),
+    (forall a b : R, R_eqb a b = true <-> a = b) ->
+    (forall a b : O, O_eqb a b = true <-> a = b) ->
+    forall (p : bool) (s0 : state R O X) (hs : list (hop R O X))
+           (css1 css2 : list (list (call R O))) (e1 e2 : eff R O),
+      state_ok s0 ->
+      Forall hop_wf hs ->
+      p = true \/ forallb is_load hs = true ->
+      Forall2 (@Permutation (call R O)) (snd (run_gen R_eqb O_eqb R_empty O_empty p s0 hs)) css1 ->
+      Forall2 (@Permutation (call R O)) (snd (run_gen R_eqb O_eqb R_empty O_empty p s0 hs)) css2 ->
+      replay (List.concat css1) (effective s0) = Some e1 ->
+      replay (List.concat css2) (effective s0) = Some e2 ->
+      Permutation e1 e2.
+Proof. exact @replay_order_independent. Qed.
+Print Assumptions C17_replay_order_independent.
+
+(** FALSE of target.go as it is now (p = false) once the caller edits a loaded
+    message in place: the edit becomes current without announcement and the
+    valid, newer re-load is refused (DEFECT C17_1, known finding KF-C17-1) *)
+Theorem C17_replay_converges_unpatched_refuted :
+  exists hs : list Witness.shop,
+    Forall hop_wf hs
+    /\ (let r := Witness.srun false None hs in
+        exists e, replay (List.concat (snd r)) (effective (None : state string string string)) = Some e
+                  /\ ~ Permutation e (effective (fst r)))
+    /\ load_err String.eqb String.eqb "" "" false
+         (fst (Witness.srun false None [HLoad (Some Witness.cA); HMutate Witness.cA'])) (Some Witness.cA') <> None
+    /\ valid_p true Witness.cA' /\ TargetCfgProofs.newer (Some Witness.cA) Witness.cA'.
+Proof. exact Witness.replay_converges_unpatched_refuted. Qed.
+Print Assumptions C17_replay_converges_unpatched_refuted.
+
+(** an accepted load announces exactly the difference between the effective
+    configurations before and after *)
+Theorem C17_calls_exact :
+  forall (R O X : Type) (R_eqb : R -> R -> bool) (O_eqb : O -> O -> bool) (R_empty : R) (O_empty : O),
+    (forall a b : O, O_eqb a b = true <-> a = b) ->
+    forall (p : bool) (s : state R O X) (cf : config R O X),
+      state_ok s -> wf_config cf ->
+      load_err R_eqb O_eqb R_empty O_empty p s (Some cf) = None ->
+      load_calls R_eqb O_eqb R_empty O_empty p s (Some cf)
+      = TargetCfgModel.eff_diff R_eqb O_eqb (effective s) (effective (Some cf)).
+Proof. exact @load_calls_exact. Qed.
+Print Assumptions C17_calls_exact.
+
+(** a target whose settings and request content are unchanged gets no call *)
+Theorem C17_unchanged_silent :
+  forall (R O X : Type) (R_eqb : R -> R -> bool) (O_eqb : O -> O -> bool) (R_empty : R) (O_empty : O),
+    (forall a b : R, R_eqb a b = true <-> a = b) ->
+    (forall a b : O, O_eqb a b = true <-> a = b) ->
+    forall (p : bool) (s : state R O X) (cf : config R O X) (k : string),
+      state_ok s -> wf_config cf ->
+      load_err R_eqb O_eqb R_empty O_empty p s (Some cf) = None ->
+      assoc k (effective s) = assoc k (effective (Some cf)) ->
+      ~ In k (map call_name (load_calls R_eqb O_eqb R_empty O_empty p s (Some cf))).
+Proof. exact @unchanged_silent. Qed.
+Print Assumptions C17_unchanged_silent.
+
+(** a target that is new, gone or different gets exactly one call, of the right
+    kind, carrying the new settings and request content *)
+Theorem C17_changed_announced_once :
+  forall (R O X : Type) (R_eqb : R -> R -> bool) (O_eqb : O -> O -> bool) (R_empty : R) (O_empty : O),
+    (forall a b : R, R_eqb a b = true <-> a = b) ->
+    (forall a b : O, O_eqb a b = true <-> a = b) ->
+    forall (p : bool) (s : state R O X) (cf : config R O X),
+      state_ok s -> wf_config cf ->
+      load_err R_eqb O_eqb R_empty O_empty p s (Some cf) = None ->
+      let cs := load_calls R_eqb O_eqb R_empty O_empty p s (Some cf) in
+      NoDup (map call_name cs)
+      /\ Forall (call_ok (effective s) (effective (Some cf))) cs
+      /\ (forall k : string,
+            assoc k (effective s) <> assoc k (effective (Some cf)) -> In k (map call_name cs)).
+Proof. exact @changed_announced_once. Qed.
+Print Assumptions C17_changed_announced_once.
+
+(** re-ordering the request / target maps of the current and of the new
+    configuration (Go's map iteration order) only permutes the announcements *)
+Theorem C17_calls_order_independent :
+  forall (R O X : Type) (R_eqb : R -> R -> bool) (O_eqb : O -> O -> bool),
+    (forall a b : O, O_eqb a b = true <-> a = b) ->
+    forall (s s' : state R O X) (cf cf' : config R O X),
+      state_ok s -> valid_p false cf -> wf_config cf ->
+      state_perm s s' -> config_perm cf cf' ->
+      Permutation (handle_diffs R_eqb O_eqb s cf) (handle_diffs R_eqb O_eqb s' cf').
+Proof. exact @handle_diffs_order_independent. Qed.
+Print Assumptions C17_calls_order_independent.
+
+(** whether Validate fails does not depend on the iteration order either *)
+Theorem C17_validate_order_independent :
+  forall (R O X : Type) (p : bool) (c c' : config R O X),
+    wf_config c ->
+    Permutation (c_request c) (c_request c') -> Permutation (c_target c) (c_target c') ->
+    (validate_gen p c = None <-> validate_gen p c' = None).
+Proof. exact @validate_order_independent. Qed.
+Print Assumptions C17_validate_order_independent.
+
+(** soundness of the executable specification K_P used by the correspondence
+    run: an observed Load step on which it raises no tag satisfies the gate,
+    state, exact-announcement and replay clauses as propositions *)
+Theorem C17_K_sound_load :
+  forall (st : option cfg) (e0 : ceff) (arg : option cfg) (err : bool) (cs : list ccall)
+         (cur st' : option cfg) (rep' : option ceff),
+    kstep st (Some e0) (OLoad arg) (RLoad err cs cur) = ([], st', rep') ->
+    (err = false ->
+       exists cf, arg = Some cf /\ valid_p false cf /\ TargetCfgProofs.newer st cf /\ st' = arg)
+    /\ (err = true ->
+          st' = st /\ cs = []
+          /\ ~ (exists cf, arg = Some cf /\ valid_p true cf /\ TargetCfgProofs.newer st cf))
+    /\ cfg_equiv cur (shown st')
+    /\ Permutation cs (if err then [] else TargetCfgCheck.eff_diff (eff_of st) (eff_of arg))
+    /\ exists e, replay cs e0 = Some e /\ rep' = Some e /\ Permutation e (eff_of st').
+Proof. exact kstep_load_sound. Qed.
+Print Assumptions C17_K_sound_load.
+
+Theorem C17_K_sound_mutate :
+  forall (st : option cfg) (rep : option ceff) (c' : cfg) (cur st' : option cfg) (rep' : option ceff),
+    kstep st rep (OMutate c') (RCur cur) = ([], st', rep') ->
+    st' = st /\ rep' = rep /\ cfg_equiv cur (shown st).
+Proof. exact kstep_mutate_sound. Qed.
+Print Assumptions C17_K_sound_mutate.
